@@ -230,3 +230,47 @@ Theorem C09_aag_entry_line_by_line : forall fuel {St : Type} (m : PM (result (it
 Proof. exact @aag_entry_line_by_line. Qed.
 Print Assumptions C09_aag_entry_line_by_line.
 
+
+(* ------------------------------------------------------------------ *)
+(* Binary AIGER and-gates and the solver log (AigLook.v, LogLook.v).  A binary gate (two delta codes, at most 16 bytes, no
+   line break): when it is returned nothing beyond its last byte was requested, and a call whose bytes were already
+   delivered does not touch the source.  Solver log: the loop proceeds line by line (LogLines: every continuing iteration
+   has consumed at least one whole line and requested nothing beyond its line break); the whole parse, when Ok, has
+   consumed the log and requested at most the one byte that discovers its end. *)
+From Flussab Require Import AigLook LogLook.
+
+Theorem C09_aig_gate_lookahead : forall fuel maxc code lr v r,
+  code < W64 -> KM fuel (vS v) lr v -> aruns (aig_and maxc code lr) v r ->
+  exists res lr' v', r = ADone (res, lr') v' /\ vS v' = vS v /\ vcur v <= vcur v' /\ Lk v v' /\
+    match res with
+    | Ok x => EntryG fuel v x lr' v' /\ vreq v' <= N.max (vreq v) (vcur v') /\ vcur v' <= vcur v + 16 /\ snd x = (code + 2) mod W64
+    | Err _ => True
+    end.
+Proof. exact aig_and_lookahead. Qed.
+Print Assumptions C09_aig_gate_lookahead.
+
+Theorem C09_aig_gate_no_read_when_delivered : forall fuel maxc code lr s v x lr' s',
+  code < W64 -> Rel s v -> KM fuel (vS v) lr v -> crun (aig_and maxc code lr) s = CDone (Ok x, lr') s' ->
+  exists v', aruns (aig_and maxc code lr) v (ADone (Ok x, lr') v') /\ Rel s' v' /\ KM fuel (vS v') lr' v' /\
+             vcur v < vcur v' /\ vreq v' <= N.max (vreq v) (vcur v') /\
+             (vreq v <= nlen (g_delivered s) -> g_consumed s' <= nlen (g_delivered s) ->
+              g_delivered s' = g_delivered s /\ src s' = src s).
+Proof. exact aig_and_no_read_when_delivered. Qed.
+Print Assumptions C09_aig_gate_no_read_when_delivered.
+
+Theorem C09_log_lookahead : forall fuel maxd iu lr v r,
+  K fuel lr v -> aruns (parse_log fuel maxd iu lr) v r ->
+  exists res lr' v', r = ADone (res, lr') v' /\ vS v' = vS v /\ vcur v <= vcur v' /\ Lk v v' /\
+    match res with
+    | Ok _ => vfail v' = None /\ ItemLk v v' /\ vcur v' = nlen (vS v) /\ vreq v' <= N.max (vreq v) (nlen (vS v) + 1)
+    | Err e => ErrPost e v'
+    end.
+Proof. exact parse_log_lookahead. Qed.
+Print Assumptions C09_log_lookahead.
+
+Theorem C09_log_proceeds_line_by_line : forall fuel maxd iu lr v r,
+  K fuel lr v -> aruns (parse_log fuel maxd iu lr) v r ->
+  LogLines fuel maxd iu fuel {| sat := None; assignment := []; started := false; finished := false |} lr v r.
+Proof. exact parse_log_lines. Qed.
+Print Assumptions C09_log_proceeds_line_by_line.
+
